@@ -67,6 +67,11 @@ class PatchConflict(BzrError):
             patch_line: Expected line content from patch.
         """
         self.line_no = line_no
+        # The patch machinery works on bytes; accept str for older callers.
+        if isinstance(orig_line, bytes):
+            orig_line = orig_line.decode("utf-8", "replace")
+        if isinstance(patch_line, bytes):
+            patch_line = patch_line.decode("utf-8", "replace")
         self.orig_line = orig_line.rstrip("\n")
         self.patch_line = patch_line.rstrip("\n")
 
